@@ -1,6 +1,7 @@
 package num
 
 import (
+	"encoding/json"
 	"errors"
 	"fmt"
 	"math"
@@ -361,8 +362,13 @@ func (a *Amount) UnmarshalJSON(value []byte) error {
 }
 
 func unquote(value []byte) []byte {
-	// If the amount is quoted, strip the quotes
+	// If the amount is quoted, decode it as a JSON string so that any
+	// escape sequences are resolved, falling back to stripping the quotes.
 	if len(value) > 2 && value[0] == '"' && value[len(value)-1] == '"' {
+		var s string
+		if err := json.Unmarshal(value, &s); err == nil {
+			return []byte(s)
+		}
 		value = value[1 : len(value)-1]
 	}
 	return value
